@@ -3,7 +3,8 @@ import LokyModel.Lemmas.Resize
 # C10 (operation level) — `_resize` as a program-counter machine (model M1Z, `LokyModel.Resize`)
 
 Every theorem is for ALL streams of observations `E : Nat → Env` (`E n` = the shared state as the calling thread sees
-it right after its `(n-1)`-th operation; `st new E n` = its program counter then, `lb new E n` = the `n`-th operation
+it right after its `(n-1)`-th operation, together with the result of that operation where it matters: `lastAlive`
+for an `alive(p)`, `lastTimeout` for a put; `st new E n` = its program counter then, `lb new E n` = the `n`-th operation
 it announces) unless a hypothesis restricts the environment (`Quiet`, `Helpful`, defined in `Lemmas/Resize.lean`).
 Finite runs (`run`, what the driver computes line by line) are prefixes of stream runs: `run_stream`.
 -/
@@ -13,13 +14,13 @@ namespace LokyModel.Resize
 
 private def w1 : Env := { procs := [(10, true)], mw := 1, started := true, feeder := true, nextPid := 11 }
 private def w2 : Env := { w1 with procs := [(10, true), (11, false)], mw := 3, nextPid := 12 }
-private def w3 (a : Bool) : Env := { w1 with procs := [(10, true), (11, true), (12, a)], mw := 3, nextPid := 13 }
+private def w3 : Env := { w1 with procs := [(10, true), (11, true), (12, true)], mw := 3, nextPid := 13 }
 
-/-- grow 1 → 3: two spawns, the second new worker is not alive at the first look of the arrival wait -/
+/-- grow 1 → 3: two spawns; `alive(12)` returns false at the first look of the arrival wait (observation 14) -/
 def growE : Nat → Env :=
   ofList [w1, w1, w1, { w1 with mw := 3 }, { w1 with mw := 3 }, { w1 with mw := 3 }, { w1 with mw := 3 },
-          w2, w2, w3 false, w3 false, w3 false, w3 false, w3 false, w3 false,
-          w3 true, w3 true, w3 true, w3 true] (w3 true)
+          w2, w2, w3, w3, w3, w3, w3, { w3 with lastAlive := false },
+          w3, w3, w3, w3] w3
 
 private def s3 (f : Bool) (mw : Nat) : Env :=
   { procs := [(10, true), (11, true), (12, true)], mw := mw, started := true, feeder := f, nextPid := 13 }
@@ -163,6 +164,13 @@ theorem C10R_sentinel_count_after_release (new : Nat) (E : Nat → Env) {i n : N
     puts new E n = reported new E n - new :=
   C10R_sentinel_count new E n (relMgmt_rank hi hin) hclean
 
+/-- without time-outs and flags this is the count of the `acquire(cq.sem,B,T)` labels themselves -/
+theorem C10R_sentinel_count_no_timeout (new : Nat) (E : Nat → Env) (n : Nat) (hr : 6 ≤ rank (st new E n))
+    (hclean : ∀ i, inPutLoop (st new E i) = true → flagged (E i) = false)
+    (hto : ∀ n, (E n).lastTimeout = false) :
+    attempts new E n = reported new E n - new := by
+  rw [attempts_eq_puts hto]; exact C10R_sentinel_count new E n hr hclean
+
 /-- All `acquire(cq.sem,B,T)` are announced while the management lock is held: after the `acquire(mgmt,B)` and not
     after a `release(mgmt)`. -/
 theorem C10R_sentinels_under_mgmt (new : Nat) (E : Nat → Env) {i : Nat} (h : lb new E i = .acqCqSem) :
@@ -256,10 +264,11 @@ theorem C10R_leaves_arrival_wait_step (new : Nat) (e : Env) :
 
 /-- One iteration of the arrival wait, started on an unflagged observation `e0` and followed by one observation per
     `alive()` call: the call leaves (`alive(p)` for every member of the CURRENT registered set of `e0`, then
-    `release(execlock)`, no `sleep`) iff every member is reported alive by the observation following its call. -/
+    `release(execlock)`, no `sleep`) iff every one of these calls returned true. -/
 theorem C10R_leaves_arrival_wait_iff (new : Nat) (e0 : Env) (es : List Env) (hf : flagged e0 = false)
     (hlen : es.length = (pids e0).length) :
-    run new .arrive (e0 :: es) = ((pids e0).map .alive ++ [.relExec], .done) ↔ scanOK (pids e0) es = true := by
+    run new .arrive (e0 :: es) = ((pids e0).map .alive ++ [.relExec], .done) ↔ ∀ e ∈ es, e.lastAlive = true := by
+  rw [← scanOK_iff (pids e0) es hlen]
   cases hp : pids e0 with
   | nil =>
     have : es = [] := by rw [hp] at hlen; simpa using hlen
@@ -276,34 +285,15 @@ theorem C10R_leaves_arrival_wait_iff (new : Nat) (e0 : Env) (es : List Env) (hf 
       exact Prod.ext h1.1 h1.2
     · intro h1; simp [h1]
 
-/-- On a stable observation `e` (the same at every look) with distinct pids: the call leaves the arrival wait,
-    without any `sleep`, iff it is flagged or every CURRENTLY registered worker is alive. -/
-theorem C10R_leaves_arrival_wait_stable (new : Nat) (e : Env) (hnd : (pids e).Nodup) :
-    run new .arrive (List.replicate ((pids e).length + 1) e) =
-        (if flagged e then .relExec :: List.replicate (pids e).length .ret
-         else (pids e).map .alive ++ [.relExec], .done) ↔
-      (flagged e = true ∨ ∀ x ∈ e.procs, x.2 = true) := by
-  by_cases hf : flagged e = true
-  · simp [List.replicate_succ, run_cons, next, hf, run_done]
-  · have hf' : flagged e = false := by simpa using hf
-    rw [List.replicate_succ, if_neg (by simp [hf']), C10R_leaves_arrival_wait_iff new e _ hf' (by simp),
-      scanOK_replicate e _ _ (Nat.le_refl _)]
-    constructor
-    · intro h; exact Or.inr (all_of_aliveIn hnd h)
-    · intro h
-      rcases h with h | h
-      · exact absurd h hf
-      · intro p hp; exact aliveIn_of_all h hp
-
 /-- In every run: a `release(execlock)` announced from the arrival wait on observation `E n` means that `E n` is
     flagged, or that the `all(...)` just completed ran over the registered set of an unflagged observation `E j` of
     THIS iteration (taken after the last `sleep` / `release(shut)`, never a stale snapshot from before the wait) and
-    every one of its members was reported alive by the observation that followed its `alive()` call. -/
+    every one of its `alive()` calls returned true (the `i`-th result is `(E (j+1+i)).lastAlive`). -/
 theorem C10R_leaves_arrival_wait_only_if (new : Nat) (E : Nat → Env) {n : Nat}
     (h : lb new E n = .relExec) (hr : rank (st new E n) = 10) :
     flagged (E n) = true ∨
     ∃ j, j ≤ n ∧ st new E j = .arrive ∧ flagged (E j) = false ∧ n = j + (pids (E j)).length ∧
-      ∀ i p, (pids (E j))[i]? = some p → aliveIn p (E (j + 1 + i)) = true := by
+      ∀ i, i < (pids (E j)).length → (E (j + 1 + i)).lastAlive = true := by
   rcases relExec_from h with ⟨hs, _⟩ | ⟨hs, hc⟩ | ⟨cur, hs, ha⟩
   · have hs' : st new E n = .locked := hs
     rw [hs'] at hr; simp [rank] at hr
@@ -316,27 +306,16 @@ theorem C10R_leaves_arrival_wait_only_if (new : Nat) (E : Nat → Env) {n : Nat}
   · have hs' : st new E n = .arrScan cur [] := hs
     obtain ⟨j, seen, hj, hsj, hfj, hp, hn, hal⟩ := arr_inv new E n cur [] hs'
     refine Or.inr ⟨j, by omega, hsj, hfj, by rw [hp]; simp; omega, ?_⟩
-    intro i p hi
+    intro i hi
     rw [hp] at hi
     by_cases hlt : i < seen.length
-    · rw [List.getElem?_append_left hlt] at hi
-      exact hal i p hi
-    · rw [List.getElem?_append_right (by omega)] at hi
-      have hi0 : i = seen.length := by
-        by_cases h0 : i - seen.length = 0
-        · omega
-        · have : ([cur] : List Nat)[i - seen.length]? = none := by
-            apply List.getElem?_eq_none; simp; omega
-          rw [this] at hi; cases hi
-      subst hi0
-      simp at hi
-      subst hi
-      have : j + 1 + seen.length = n := by omega
+    · exact hal i hlt
+    · have : j + 1 + i = n := by simp at hi; omega
       rw [this]; exact ha
 
-/-- conversely, a dead member sends the thread to sleep and the next test looks at the registry again -/
+/-- conversely, an `alive()` returning false sends the thread to sleep and the next test looks at the registry again -/
 theorem C10R_arrival_wait_sleeps_on_dead (new : Nat) (cur : Nat) (todo : List Nat) (e : Env)
-    (h : aliveIn cur e = false) : next new (.arrScan cur todo) e = (.sleep, .arrive) := by simp [next, h]
+    (h : e.lastAlive = false) : next new (.arrScan cur todo) e = (.sleep, .arrive) := by simp [next, h]
 
 example : lb 3 growE 14 = .sleep ∧ st 3 growE 15 = .arrive ∧ lb 3 growE 18 = .relExec := by decide
 
@@ -344,50 +323,155 @@ example : lb 3 growE 14 = .sleep ∧ st 3 growE 15 = .arrive ∧ lb 3 growE 18 =
 
 /-- Under `Quiet` (nobody flags the executor; the thread's own write of `_max_workers` is visible; between the end
     of the departure wait and the arrival wait the registered set changes only by the thread's own `pstart`s, one
-    worker each; during the arrival wait the registered set is stable and nobody dies) the observation at the
-    `release(execlock)` that ends the arrival wait has exactly `new` registered workers, all alive, and
-    `_max_workers = new`.  Nothing is assumed about how the pool shrinks: the departure wait itself guarantees
-    `len procs ≤ new`. -/
+    worker each; during the arrival wait the registered set is stable) the observation at the `release(execlock)`
+    that ends the arrival wait has exactly `new` registered workers, `_max_workers = new`, and the `all(...)` that
+    just completed called `alive()` on every CURRENTLY registered worker (the snapshot of `E j` is the registered set
+    of `E n`) and each call returned true.  Nothing is assumed about how the pool shrinks (the departure wait itself
+    guarantees `len procs ≤ new`) nor about the results of the `alive()` calls (a false one only delays the return). -/
 theorem C10R_size_at_return {new : Nat} {E : Nat → Env} (hq : Quiet new E) {n : Nat}
     (h : lb new E n = .relExec) (hr : rank (st new E n) = 10) :
-    (E n).procs.length = new ∧ (∀ p ∈ pids (E n), aliveIn p (E n) = true) ∧ (E n).mw = new := by
+    (E n).procs.length = new ∧ (E n).mw = new ∧
+    ∃ j, j ≤ n ∧ st new E j = .arrive ∧ pids (E j) = pids (E n) ∧ n = j + (E n).procs.length ∧
+      ∀ i, i < (E n).procs.length → (E (j + 1 + i)).lastAlive = true := by
   have hlen := len_inv hq n
-  refine ⟨?_, ?_, hq.ownMw n (by omega) (by omega)⟩
+  refine ⟨?_, hq.ownMw n (by omega) (by omega), ?_⟩
   · revert hlen hr
     cases st new E n <;> simp [LenInv, rank]
-  · rcases relExec_from h with ⟨hs, _⟩ | ⟨hs, hc⟩ | ⟨cur, hs, ha⟩
-    · have hs' : st new E n = .locked := hs
-      rw [hs'] at hr; simp [rank] at hr
-    · have hs' : st new E n = .arrive := hs
-      rcases hc with hc | hc
-      · rw [hq.noFlag n (Or.inr (Or.inr hs'))] at hc; cases hc
-      · intro p hp; rw [hc] at hp; cases hp
-    · have hs' : st new E n = .arrScan cur [] := hs
-      obtain ⟨seen, hp, hal⟩ := arrq_inv hq n cur [] hs'
-      intro p hpm
-      rw [hp] at hpm
-      rcases List.mem_append.mp hpm with h' | h'
-      · exact hal p h'
-      · have : p = cur := by simpa using h'
-        subst this; exact ha
+  · rcases C10R_leaves_arrival_wait_only_if new E h hr with hf | ⟨j, hj, hsj, _, hn, hal⟩
+    · rcases relExec_from h with ⟨hs, _⟩ | ⟨hs, _⟩ | ⟨cur, hs, _⟩
+      · have hs' : st new E n = .locked := hs
+        rw [hs'] at hr; simp [rank] at hr
+      · have hs' : st new E n = .arrive := hs
+        rw [hq.noFlag n (Or.inr (Or.inr hs'))] at hf; cases hf
+      · -- flagged observations are not excluded inside a scan: use the snapshot invariant directly
+        have hs' : st new E n = .arrScan cur [] := hs
+        obtain ⟨j, seen, hj, hsj, _, hp, hn, hal⟩ := arr_inv new E n cur [] hs'
+        have hd : n = j + (n - j) := by omega
+        have hpc : pids (E n) = pids (E j) := by
+          rw [hd]; exact pids_const hq (by rw [hsj]; rfl) (n - j) (by rw [← hd]; exact hr)
+        have hl : (E n).procs.length = seen.length + 1 := by
+          have := congrArg List.length hpc
+          rw [hp] at this; simpa [pids] using this
+        refine ⟨j, by omega, hsj, hpc.symm, by omega, ?_⟩
+        intro i hi
+        by_cases hlt : i < seen.length
+        · exact hal i hlt
+        · have : j + 1 + i = n := by omega
+          rw [this]
+          rcases relExec_from h with ⟨hs2, _⟩ | ⟨hs2, _⟩ | ⟨c2, _, ha⟩
+          · have hs2' : st new E n = .locked := hs2
+            rw [hs2'] at hs'; cases hs'
+          · have hs2' : st new E n = .arrive := hs2
+            rw [hs2'] at hs'; cases hs'
+          · exact ha
+    · have hd : n = j + (n - j) := by omega
+      have hpc : pids (E n) = pids (E j) := by
+        rw [hd]; exact pids_const hq (by rw [hsj]; rfl) (n - j) (by rw [← hd]; exact hr)
+      have hl : (E n).procs.length = (pids (E j)).length := by
+        have := congrArg List.length hpc
+        simpa [pids] using this
+      exact ⟨j, hj, hsj, hpc.symm, by omega, fun i hi => hal i (by omega)⟩
 
-/-- with distinct pids: every registered ENTRY is alive -/
-theorem C10R_size_at_return_entries {new : Nat} {E : Nat → Env} (hq : Quiet new E) {n : Nat}
-    (h : lb new E n = .relExec) (hr : rank (st new E n) = 10) (hnd : (pids (E n)).Nodup) :
-    (E n).procs.length = new ∧ (∀ x ∈ (E n).procs, x.2 = true) ∧ (E n).mw = new := by
-  obtain ⟨h1, h2, h3⟩ := C10R_size_at_return hq h hr
-  exact ⟨h1, all_of_aliveIn hnd h2, h3⟩
+private theorem growE_done (n : Nat) (hn : 19 ≤ n) : st 3 growE n = .done :=
+  done_stays 3 growE hn (by decide)
+private theorem growE_tail (n : Nat) (hn : 19 ≤ n) : growE n = w3 := ofList_ge (by simp; omega)
+
+/-- non-vacuity: the grow 1 → 3 stream is quiet, and the conclusion is reached at operation 18 -/
+theorem growE_quiet : Quiet 3 growE where
+  noFlag := by
+    intro n _
+    by_cases hn : n < 19
+    · exact (by decide : ∀ n, n < 19 → flagged (growE n) = false) n hn
+    · rw [growE_tail n (by omega)]; rfl
+  ownMw := by
+    intro n h1 h2
+    by_cases hn : n < 19
+    · exact (by decide : ∀ n, n < 19 → 6 ≤ rank (st 3 growE n) → (growE n).mw = 3) n hn h1
+    · rw [growE_done n (by omega)] at h2; simp [rank] at h2
+  lenFrozen := by
+    intro n h
+    by_cases hn : n < 19
+    · exact (by decide : ∀ n, n < 19 → (lb 3 growE n = .acqShut ∨ (7 ≤ rank (st 3 growE n) ∧ rank (st 3 growE n) ≤ 9)) →
+        (growE (n + 1)).procs.length = (growE n).procs.length + if lb 3 growE n = .pstart then 1 else 0) n hn h
+    · have hd := growE_done n (by omega)
+      rcases h with h | h
+      · rw [lb_eq, hd] at h; simp [next] at h
+      · rw [hd] at h; simp [rank] at h
+  arrStay := by
+    intro n h
+    by_cases hn : n < 19
+    · exact (by decide : ∀ n, n < 19 → rank (st 3 growE n) = 10 → pids (growE (n + 1)) = pids (growE n)) n hn h
+    · rw [growE_done n (by omega)] at h; simp [rank] at h
+
+example : lb 3 growE 18 = .relExec ∧ rank (st 3 growE 18) = 10 ∧ (growE 18).procs.length = 3 ∧ (growE 18).mw = 3 :=
+  ⟨by decide, by decide, (C10R_size_at_return growE_quiet (n := 18) (by decide) (by decide)).1,
+   (C10R_size_at_return growE_quiet (n := 18) (by decide) (by decide)).2.1⟩
 
 /-! ## 7. termination -/
 
 /-- If the environment is eventually helpful (`Helpful new E N`: from `N` on no pending job; `len procs ≤ new` or
-    broken; every registered worker alive or the executor flagged; put time-outs have stopped or a flag is raised;
-    an own `pstart` is followed by a larger registered set; during the arrival wait nobody un-registers and flags
-    are not reset), then — wherever the call is at `N` — it returns after finitely many operations. -/
+    broken; every `alive()` call of the arrival scan returns true or the executor is flagged; put time-outs have
+    stopped or a flag is raised; an own `pstart` is followed by a larger registered set; during the arrival wait
+    the flags are not reset), then — wherever the call is at `N` — it returns after finitely many operations. -/
 theorem C10R_terminates {new : Nat} {E : Nat → Env} {N : Nat} (H : Helpful new E N) :
     ∃ n, st new E n = .done ∧ ∀ m, n ≤ m → lb new E m = .ret := by
   obtain ⟨n, hn⟩ := reach_any H
   exact ⟨n, hn, fun m hm => (ret_iff ..).mpr (done_stays new E hm hn)⟩
+
+/-- non-vacuity: from observation 15 on (every `alive()` returns true) the grow stream is helpful -/
+theorem growE_helpful : Helpful 3 growE 15 where
+  pend := by
+    intro n _
+    by_cases hn : n < 19
+    · exact (by decide : ∀ n, n < 19 → (growE n).pending = 0) n hn
+    · rw [growE_tail n (by omega)]; rfl
+  dep := by
+    intro n _
+    by_cases hn : n < 19
+    · exact Or.inl ((by decide : ∀ n, n < 19 → (growE n).procs.length ≤ 3) n hn)
+    · rw [growE_tail n (by omega)]; exact Or.inl (by decide)
+  allAlive := by
+    intro n h _
+    by_cases hn : n < 19
+    · exact Or.inl ((by decide : ∀ n, n < 19 → 15 ≤ n → (growE n).lastAlive = true) n hn h)
+    · rw [growE_tail n (by omega)]; exact Or.inl rfl
+  putOk := by
+    intro n _ _
+    by_cases hn : n < 19
+    · exact Or.inl ((by decide : ∀ n, n < 19 → (growE n).lastTimeout = false) n hn)
+    · rw [growE_tail n (by omega)]; exact Or.inl rfl
+  grow := by
+    intro n h hp
+    by_cases hn : n < 18
+    · exact absurd hp ((by decide : ∀ n, n < 18 → 15 ≤ n → lb 3 growE (n + 1) ≠ .pstart) n hn h)
+    · rw [lb_eq, growE_done (n + 1) (by omega)] at hp; simp [next] at hp
+  stick := by
+    intro n _ h
+    by_cases hn : n < 19
+    · exact (by decide : ∀ n, n < 19 → rank (st 3 growE n) = 10 → flagged (growE n) = true →
+        flagged (growE (n + 1)) = true) n hn h
+    · rw [growE_done n (by omega)] at h; simp [rank] at h
+
+private theorem brokenE_tail (n : Nat) (hn : 7 ≤ n) :
+    brokenE n = { s3 true 1 with lastTimeout := true, broken := true } := ofList_ge (by simp; omega)
+private theorem brokenE_done (n : Nat) (hn : 11 ≤ n) : st 1 brokenE n = .done :=
+  done_stays 1 brokenE hn (by decide)
+
+/-- non-vacuity with put time-outs that never stop: the executor is flagged broken from observation 7 on -/
+theorem brokenE_helpful : Helpful 1 brokenE 7 where
+  pend := by intro n h; rw [brokenE_tail n h]; rfl
+  dep := by intro n h; rw [brokenE_tail n h]; exact Or.inr rfl
+  allAlive := by intro n h _; rw [brokenE_tail n h]; exact Or.inr rfl
+  putOk := by intro n h _; rw [brokenE_tail n h]; exact Or.inr rfl
+  grow := by
+    intro n h hp
+    by_cases hn : n < 11
+    · exact absurd hp ((by decide : ∀ n, n < 11 → lb 1 brokenE (n + 1) ≠ .pstart) n hn)
+    · rw [lb_eq, brokenE_done (n + 1) (by omega)] at hp; simp [next] at hp
+  stick := by intro n h _ _; rw [brokenE_tail (n + 1) (by omega)]; rfl
+
+example : ∃ n, st 3 growE n = .done := (C10R_terminates growE_helpful).imp fun _ h => h.1
+example : ∃ n, st 1 brokenE n = .done := (C10R_terminates brokenE_helpful).imp fun _ h => h.1
 
 /-! ## 8. the early returns -/
 
